@@ -1,7 +1,7 @@
 package main
 
 func init() {
-	for _, id := range []string{"C04", "C07", "C10", "C11", "C14", "C15", "C19", "C20"} {
+	for _, id := range []string{"C04", "C07", "C10", "C11", "C15", "C19", "C20"} {
 		notApplicable[id] = "not yet claimed: contracts for this property are still being written (see DESIGN.md); no check is registered"
 	}
 	notApplicable["C12"] = "command/response matching lives in goroutine, channel and timer interplay (onActiveEvent/onActiveRespondEvent/write); no sequential function contract within the verifier's subset carries the claim"
@@ -136,6 +136,27 @@ func init() {
 			"standardJT808DataHandle.OnPackageProgressEvent, which looks the file up in a string-keyed map and stores the ranges in the reply (string-keyed maps are outside the engine's subset)",
 			"the socket-level sequence (ranges resent, next completion response says complete)",
 			"more than 255 missing ranges (count byte wraps; outside the property's stated domain)",
+		},
+	})
+}
+
+func init() {
+	registerProp(&PropDef{
+		ID:    "C14",
+		Title: "Missing sub-packages are re-requested exactly, stale transfers expire",
+		Roots: []string{
+			"service.(*packageParse).supplementarySubPackage", "service.(*packageParse).deleteTimeoutPackage", "service.(*packageParse).add", "service.(*packageParse).remove",
+			"service.(*packageParse).completePack", "model.(*P0x8003).Encode",
+		},
+		Decided: "per call, over a ghost clock that time.Now() advances monotonically: supplementarySubPackage builds, for every transfer whose last arrival is more than 5 s before the call's time.Now(), one 0x8003 body " +
+			"holding the first packet's serial number (the header add() stored), the count, and exactly the package numbers of the empty slots in strictly ascending order (none missing, none extra), encoded big-endian at 3+2i, " +
+			"with reply ID 0x8003 and the fragmentation bit cleared; it restarts that transfer's idle clock (so a second call within 5 s re-requests nothing for it) and leaves every other transfer's clock and the key set untouched; " +
+			"deleteTimeoutPackage removes exactly the transfers begun more than 60 s before its time.Now() from both tables and keeps all others; table invariants (same keys, slot count = announced total, distinct bookkeeping records) are preserved by add, remove, completePack and both functions",
+		Undecided: []string{
+			"that the re-request is triggered by the next inbound data and written once to that terminal: parse's composition and connection.reader -> reissuePackChan -> subPackReplyEvent (goroutines, channels)",
+			"the number of returned messages equals the number of stale transfers (a cardinality over the map iteration)",
+			"the returned Message's decoded header (Decode of the just-encoded frame; needs the Decode-after-Encode inverse, see C01)",
+			"a discarded transfer is never delivered later: whole-history statement (per call: its slots are gone from both tables)",
 		},
 	})
 }
